@@ -184,6 +184,63 @@ theorem forPush3_inv {r : RState3 F} (h : RInv3 r) (n j : Nat) (v : Str) (x y z 
       simp only [Bool.false_eq_true, ↓reduceIte]
       exact ⟨Stmt2L.typed_alSet h.typed (by simp [Value.matchesName, hd]), h.arrs, h.rng, h.rets⟩
 
+theorem readScalarSpec_inv (items : List (Nat × DataElement F)) (r : RState3 F) (name : Str) (h : RInv3 r) :
+    RInv3 (readScalarSpec items r name).1 := by
+  unfold readScalarSpec
+  cases items[r.data]? with
+  | none => exact h
+  | some lnd =>
+    obtain ⟨ln, d⟩ := lnd
+    dsimp only
+    cases hco : Value.coerceFromData name d with
+    | error e => exact ⟨h.typed, h.arrs, h.rng, h.rets⟩
+    | ok v => exact ⟨Stmt2L.typed_alSet h.typed (Stmt2L.coerce_matches hco), h.arrs, h.rng, h.rets⟩
+
+theorem readCellSpec_inv (items : List (Nat × DataElement F)) (r : RState3 F) (name : Str) (idx : List (Expr2 F))
+    (h : RInv3 r) : RInv3 (readCellSpec items r name idx).1 := by
+  unfold readCellSpec
+  cases hfi : evalIdx r idx with
+  | error err => exact h
+  | ok q =>
+    obtain ⟨index, r1⟩ := q
+    have h1 := evalIdx_inv h hfi
+    dsimp only
+    cases items[r1.data]? with
+    | none => exact h1
+    | some lnd =>
+      obtain ⟨ln, d⟩ := lnd
+      dsimp only
+      cases Value.coerceFromData name d with
+      | error e => exact ⟨h1.typed, h1.arrs, h1.rng, h1.rets⟩
+      | ok v =>
+        dsimp only
+        cases hcs : storeCell name index v r1.arrays with
+        | error err => exact ⟨h1.typed, h1.arrs, h1.rng, h1.rets⟩
+        | ok arrs =>
+          exact ⟨h1.typed, Stmt2L.cellStore_ok (by rw [← storeCell_eq]; exact hcs) h1.arrs, h1.rng, h1.rets⟩
+
+theorem readTargetSpec_inv (items : List (Nat × DataElement F)) (r : RState3 F) (t : RTarget F) (h : RInv3 r) :
+    RInv3 (readTargetSpec items r t).1 := by
+  cases t with
+  | scalar x => exact readScalarSpec_inv items r x h
+  | cell name idx => exact readCellSpec_inv items r name idx h
+
+theorem readTargetsSpec_inv (items : List (Nat × DataElement F)) : ∀ (ts : List (RTarget F)) (r : RState3 F),
+    RInv3 r → RInv3 (readTargetsSpec items r ts).1
+  | [], r, h => h
+  | t :: rest, r, h => by
+    have h1 := readTargetSpec_inv items r t h
+    have hsp : readTargetsSpec items r (t :: rest) =
+        match readTargetSpec items r t with
+        | (r', .next) => readTargetsSpec items r' rest
+        | x => x := rfl
+    rw [hsp]
+    generalize readTargetSpec items r t = res at h1
+    obtain ⟨r', ctl⟩ := res
+    cases ctl with
+    | next => exact readTargetsSpec_inv items rest r' h1
+    | _ => exact h1
+
 /-- **The reference step keeps the invariants of the reference state.** -/
 theorem exec3_inv (items : List (Nat × DataElement F)) (n j : Nat) :
     ∀ (s : RStmt3 F) (r : RState3 F), RInv3 r → RInv3 (s.exec items n j r).1
@@ -282,7 +339,7 @@ theorem exec3_inv (items : List (Nat × DataElement F)) (n j : Nat) :
       show as.length ≤ _
       simp only [List.length_cons] at this
       omega
-  | .readS ts, r, h => ⟨Stmt2L.readAll_typed items ts r.vars r.data h.typed, h.arrs, h.rng, h.rets⟩
+  | .readS ts, r, h => readTargetsSpec_inv items ts r h
   | .dataS items', r, h => h
   | .restoreS, r, h => ⟨h.typed, h.arrs, h.rng, h.rets⟩
   | .dimS name dims, r, h => by
